@@ -7,10 +7,31 @@ Grammar (anything else raises ExtractionError = broken obligation, never a pass)
   `return MultiplyOperator(<expr>)` with
   <expr> ::= point | self(point) | <ufunc>(self.domain)(point) | <number>
            | -<expr> | <expr> (+|*|/) <expr> | <expr> ** <nat>
-Also extracted: LINEAR_UFUNCS.
+Also extracted: LINEAR_UFUNCS and, with the analogous grammar, gradient_factory.
+
+Three sources, tried in this order, each FAILING CLOSED (ExtractionError) on anything it does
+not understand; the source used is recorded in the evidence:
+  1. `ast-chain`: the if/elif chain described above.
+  2. `ast-table`: a module-level tuple/list/dict literal of (name, lambda op, pt: <expr>) pairs
+     that nothing mutates, looked up by name in the factory, whose generic inner function returns
+     `MultiplyOperator(<looked-up>(self, point))`; same expression vocabulary
+     (`op.domain.element(pt)` reads as `pt`).
+  3. `live`: behavioural identification on the module of the tree under test (subprocess with
+     that tree on PYTHONPATH): for every unary float ufunc the operator on rn(3) (functional on
+     RealNumbers() for the gradient table) is built at exactly representable points; its
+     derivative must be flagged-linear-self, "not provided" (OpNotImplementedError /
+     NotImplementedError at every point) or a linear DIAGONAL operator whose multiplier matches
+     exactly ONE candidate of the finite vocabulary (cos, -sin, 1+tan^2, 1/(2 sqrt), 2x, 1/x, exp,
+     -1/x^2, cosh, sinh) on the verification grid to 1e-12; no match, an ambiguous match, a
+     derivative for a ufunc without Lean counterpart or any other exception fails closed.
+The emitted table is in the canonical order of FNS whatever the source.
 """
 import ast
+import json
+import math
 import os
+import subprocess
+import sys
 from fractions import Fraction
 
 from vf import core
@@ -26,14 +47,18 @@ def _u(node):
     return ast.unparse(node)
 
 
-def _expr(node):
-    if isinstance(node, ast.Name) and node.id == 'point':
+def _expr(node, sf='self', pt='point'):
+    """Point-wise multiplier expression; `sf` / `pt` are the names of the operator and the point."""
+    def is_pt(n):
+        return (isinstance(n, ast.Name) and n.id == pt) or _u(n) == '{}.domain.element({})'.format(sf, pt)
+    if is_pt(node):
         return 'Expr.pt'
-    if isinstance(node, ast.Call) and _u(node) == 'self(point)':
+    if (isinstance(node, ast.Call) and isinstance(node.func, ast.Name) and node.func.id == sf and
+            len(node.args) == 1 and is_pt(node.args[0]) and not node.keywords):
         return 'Expr.self'
-    if (isinstance(node, ast.Call) and len(node.args) == 1 and _u(node.args[0]) == 'point' and
+    if (isinstance(node, ast.Call) and len(node.args) == 1 and is_pt(node.args[0]) and
             isinstance(node.func, ast.Call) and isinstance(node.func.func, ast.Name) and
-            len(node.func.args) == 1 and _u(node.func.args[0]) == 'self.domain' and
+            len(node.func.args) == 1 and _u(node.func.args[0]) == sf + '.domain' and
             not node.keywords and not node.func.keywords):
         g = node.func.func.id
         if g not in FNS:
@@ -44,17 +69,17 @@ def _expr(node):
         q = Fraction(node.value)
         return '(Expr.const ({}) {})'.format(q.numerator, q.denominator)
     if isinstance(node, ast.UnaryOp) and isinstance(node.op, ast.USub):
-        return '(Expr.neg {})'.format(_expr(node.operand))
+        return '(Expr.neg {})'.format(_expr(node.operand, sf, pt))
     if isinstance(node, ast.BinOp):
         if isinstance(node.op, ast.Pow):
             if not (isinstance(node.right, ast.Constant) and isinstance(node.right.value, int)
                     and node.right.value >= 0):
                 raise ExtractionError('unsupported exponent ' + _u(node))
-            return '(Expr.pow {} {})'.format(_expr(node.left), node.right.value)
+            return '(Expr.pow {} {})'.format(_expr(node.left, sf, pt), node.right.value)
         ops = {ast.Add: 'add', ast.Mult: 'mul', ast.Div: 'div'}
         for k, v in ops.items():
             if isinstance(node.op, k):
-                return '(Expr.{} {} {})'.format(v, _expr(node.left), _expr(node.right))
+                return '(Expr.{} {} {})'.format(v, _expr(node.left, sf, pt), _expr(node.right, sf, pt))
     raise ExtractionError('expression outside the grammar: ' + _u(node))
 
 
@@ -172,13 +197,332 @@ def _inner(fn):
     return _expr(call.args[0])
 
 
+def _strip_doc(body):
+    return [st for st in body if not (isinstance(st, ast.Expr) and isinstance(st.value, ast.Constant)
+                                      and isinstance(st.value.value, str))]
+
+
+def _table_form(tree):
+    """Source 2 for derivative_factory (see the module docstring)."""
+    fac = [n for n in tree.body if isinstance(n, ast.FunctionDef) and n.name == 'derivative_factory']
+    if len(fac) != 1:
+        raise ExtractionError('derivative_factory not found')
+    body = _strip_doc(fac[0].body)
+    # <m> = dict(<T>).get(name) | <T>.get(name)
+    if not (len(body) == 4 and isinstance(body[0], ast.Assign) and len(body[0].targets) == 1 and
+            isinstance(body[0].targets[0], ast.Name)):
+        raise ExtractionError('derivative_factory: not the table form')
+    mname = body[0].targets[0].id
+    look = body[0].value
+    tname = None
+    if isinstance(look, ast.Call) and isinstance(look.func, ast.Attribute) and look.func.attr == 'get' and \
+            [_u(a) for a in look.args] == ['name'] and not look.keywords:
+        base = look.func.value
+        if isinstance(base, ast.Name):
+            tname = base.id
+        elif isinstance(base, ast.Call) and _u(base.func) == 'dict' and len(base.args) == 1 and \
+                isinstance(base.args[0], ast.Name) and not base.keywords:
+            tname = base.args[0].id
+    if tname is None:
+        raise ExtractionError('derivative_factory: unrecognised table lookup ' + _u(look))
+    # if <m> is None: return Operator.derivative
+    st = body[1]
+    if not (isinstance(st, ast.If) and _u(st.test) == mname + ' is None' and not st.orelse and
+            [_u(x) for x in _strip_doc(st.body)] == ['return Operator.derivative']):
+        raise ExtractionError('derivative_factory: unrecognised fallback ' + _u(st)[:120])
+    # def derivative(self, point): return MultiplyOperator(<m>(self, point))
+    fn = body[2]
+    if not (isinstance(fn, ast.FunctionDef) and fn.name == 'derivative' and
+            [a.arg for a in fn.args.args] == ['self', 'point'] and
+            [_u(x) for x in _strip_doc(fn.body)] ==
+            ['return MultiplyOperator({}(self, point))'.format(mname)]):
+        raise ExtractionError('derivative_factory: unrecognised generic derivative')
+    if _u(body[3]) != 'return derivative':
+        raise ExtractionError('derivative_factory: unrecognised return')
+    # the table: one module-level assignment of a literal, never mutated / rebound
+    assigns = [n for n in tree.body if isinstance(n, ast.Assign) and len(n.targets) == 1 and
+               isinstance(n.targets[0], ast.Name) and n.targets[0].id == tname]
+    if len(assigns) != 1:
+        raise ExtractionError('table {} is not assigned exactly once at module level'.format(tname))
+    for node in ast.walk(tree):
+        if isinstance(node, ast.Name) and node.id == tname and not isinstance(node.ctx, ast.Load) \
+                and node is not assigns[0].targets[0]:
+            raise ExtractionError('table {} is rebound'.format(tname))
+        if isinstance(node, (ast.Attribute, ast.Subscript)) and isinstance(node.value, ast.Name) and \
+                node.value.id == tname and not (isinstance(node, ast.Attribute) and node.attr == 'get'):
+            raise ExtractionError('table {} is used other than through .get'.format(tname))
+        if isinstance(node, (ast.Global, ast.Nonlocal)) and tname in node.names:
+            raise ExtractionError('table {} declared global'.format(tname))
+    lit = assigns[0].value
+    if isinstance(lit, (ast.Tuple, ast.List)):
+        pairs = []
+        for e in lit.elts:
+            if not (isinstance(e, ast.Tuple) and len(e.elts) == 2):
+                raise ExtractionError('table entry is not a pair: ' + _u(e)[:80])
+            pairs.append((e.elts[0], e.elts[1]))
+    elif isinstance(lit, ast.Dict):
+        pairs = list(zip(lit.keys, lit.values))
+    else:
+        raise ExtractionError('table {} is not a tuple/list/dict literal'.format(tname))
+    table = []
+    for k, v in pairs:
+        if not (isinstance(k, ast.Constant) and isinstance(k.value, str)):
+            raise ExtractionError('table key is not a string literal')
+        if k.value not in FNS:
+            raise ExtractionError('ufunc {!r} has a table entry but no Lean counterpart'.format(k.value))
+        if not (isinstance(v, ast.Lambda) and len(v.args.args) == 2 and not v.args.defaults and
+                not v.args.vararg and not v.args.kwarg and not v.args.kwonlyargs):
+            raise ExtractionError('table value is not a two-argument lambda: ' + _u(v)[:80])
+        table.append((k.value, _expr(v.body, v.args.args[0].arg, v.args.args[1].arg)))
+    return table
+
+
+# ---- source 3: behavioural identification on the live module of the tree under test
+
+GRID = [0.375, 0.75, 1.25, 1.5, -0.5, -1.25]   # exactly representable; the negative ones are used
+#                                                where the ufunc is finite there
+
+CANDIDATES = [
+    ('cos', lambda t: math.cos(t), '(Expr.app Fn.cos)'),
+    ('-sin', lambda t: -math.sin(t), '(Expr.neg (Expr.app Fn.sin))'),
+    ('sin', lambda t: math.sin(t), '(Expr.app Fn.sin)'),
+    ('1+tan^2', lambda t: 1 + math.tan(t) ** 2, '(Expr.add (Expr.const (1) 1) (Expr.pow (Expr.app Fn.tan) 2))'),
+    ('1/(2 sqrt)', lambda t: 0.5 / math.sqrt(t), '(Expr.div (Expr.const (1) 2) (Expr.app Fn.sqrt))'),
+    ('2x', lambda t: 2.0 * t, '(Expr.mul (Expr.const (2) 1) Expr.pt)'),
+    ('1/x', lambda t: 1.0 / t, '(Expr.div (Expr.const (1) 1) Expr.pt)'),
+    ('exp', lambda t: math.exp(t), '(Expr.app Fn.exp)'),
+    ('-1/x^2', lambda t: -1.0 / (t * t), '(Expr.neg (Expr.pow (Expr.app Fn.reciprocal) 2))'),
+    ('cosh', lambda t: math.cosh(t), '(Expr.app Fn.cosh)'),
+    ('sinh', lambda t: math.sinh(t), '(Expr.app Fn.sinh)'),
+    ('-sinh', lambda t: -math.sinh(t), '(Expr.neg (Expr.app Fn.sinh))'),
+]
+# the spelling the AST sources produce for the unchanged code (so that the proofs re-check)
+HOME = {
+    'deriv': {'sin': ('cos', '(Expr.app Fn.cos)'), 'cos': ('-sin', '(Expr.neg (Expr.app Fn.sin))'),
+              'tan': ('1+tan^2', '(Expr.add (Expr.const (1) 1) (Expr.pow Expr.self 2))'),
+              'sqrt': ('1/(2 sqrt)', '(Expr.div (Expr.const (1) 2) Expr.self)'),
+              'square': ('2x', '(Expr.mul (Expr.const (2) 1) Expr.pt)'),
+              'log': ('1/x', '(Expr.div (Expr.const (1) 1) Expr.pt)'),
+              'exp': ('exp', 'Expr.self'),
+              'reciprocal': ('-1/x^2', '(Expr.neg (Expr.pow Expr.self 2))'),
+              'sinh': ('cosh', '(Expr.app Fn.cosh)'), 'cosh': ('sinh', '(Expr.app Fn.sinh)')},
+    'grad': {'sin': ('cos', '(Expr.app Fn.cos)'), 'cos': ('-sin', '(Expr.neg (Expr.app Fn.sin))'),
+             'tan': ('1+tan^2', '(Expr.add (Expr.const (1) 1) (Expr.comp Fn.square Expr.self))'),
+             'sqrt': ('1/(2 sqrt)', '(Expr.div (Expr.const (1) 2) Expr.self)'),
+             'square': ('2x', '(Expr.mul (Expr.const (2) 1) Expr.pt)'),
+             'log': ('1/x', '(Expr.app Fn.reciprocal)'),
+             'exp': ('exp', 'Expr.self'),
+             'reciprocal': ('-1/x^2', '(Expr.div (Expr.const (-1) 1) (Expr.app Fn.square))'),
+             'sinh': ('cosh', '(Expr.app Fn.cosh)'), 'cosh': ('sinh', '(Expr.app Fn.sinh)')},
+}
+
+_PROBE = r"""
+import json, sys, warnings
+warnings.filterwarnings('ignore')
+import numpy as np
+import odl
+import odl.ufunc_ops as uo
+from odl.util.ufuncs import UFUNCS
+from odl.operator import OpNotImplementedError
+which, grid = sys.argv[1], json.loads(sys.argv[2])
+out = {}
+r3 = odl.rn(3)
+for name, nin, nout, _ in UFUNCS:
+    if nin != 1 or nout != 1:
+        continue
+    rec = {'status': None, 'pts': []}
+    try:
+        obj = getattr(uo, name)(r3) if which == 'deriv' else getattr(uo, name)()
+    except Exception as e:
+        rec['status'] = 'unavailable'; rec['detail'] = type(e).__name__
+        out[name] = rec
+        continue
+    if which == 'deriv' and obj.range != obj.domain:
+        rec['status'] = 'other-range'    # boolean / integer valued ufuncs (isnan, signbit, ...)
+    if obj.is_linear:
+        rec['linear'] = True
+    stats = set()
+    for t in grid:
+        try:
+            with np.errstate(all='ignore'):
+                if which == 'deriv':
+                    x = r3.element([t, t / 2, t / 4])
+                    fx = np.asarray(obj(x))
+                else:
+                    x = float(t)
+                    fx = np.asarray([obj(x)], dtype=float)
+            if not np.all(np.isfinite(fx.astype(float))):
+                continue
+        except Exception as e:
+            continue
+        try:
+            with np.errstate(all='ignore'):
+                D = obj.derivative(x)
+        except (OpNotImplementedError, NotImplementedError):
+            stats.add('none')
+            continue
+        except Exception as e:
+            stats.add('error:' + type(e).__name__ + ':' + str(e)[:80])
+            continue
+        try:
+            with np.errstate(all='ignore'):
+                if which == 'deriv':
+                    if D is obj:
+                        stats.add('self')
+                        continue
+                    if not D.is_linear or D.domain != obj.domain or D.range != obj.range:
+                        stats.add('error:derivative not a linear operator domain -> range')
+                        continue
+                    cols = [np.asarray(D(r3.element(e))) for e in np.eye(3)]
+                    M = np.array(cols).T
+                    if np.any(M - np.diag(np.diag(M)) != 0):
+                        stats.add('error:derivative is not diagonal')
+                        continue
+                    u = np.array([1.5, -0.25, 2.0]); v = np.array([-0.5, 0.75, 1.0])
+                    lhs = np.asarray(D(r3.element(2.5 * u + v)))
+                    rhs = 2.5 * np.asarray(D(r3.element(u))) + np.asarray(D(r3.element(v)))
+                    if not np.allclose(lhs, rhs, rtol=1e-12, atol=1e-300) or                             not np.allclose(np.asarray(D(r3.one())), np.diag(M), rtol=1e-15, atol=0):
+                        stats.add('error:derivative is not linear')
+                        continue
+                    m = np.diag(M)
+                    if not np.all(np.isfinite(m)):
+                        continue
+                    stats.add('mult')
+                    for tk, mk in zip([t, t / 2, t / 4], m.tolist()):
+                        rec['pts'].append([tk, mk])
+                else:
+                    if not D.is_linear:
+                        stats.add('error:derivative not linear')
+                        continue
+                    a, b = float(D(1.0)), float(D(2.5))
+                    if not (abs(b - 2.5 * a) <= 1e-12 * abs(b) + 1e-300):
+                        stats.add('error:derivative is not linear')
+                        continue
+                    if not np.isfinite(a):
+                        continue
+                    stats.add('mult')
+                    rec['pts'].append([t, a])
+        except Exception as e:
+            stats.add('error:' + type(e).__name__ + ':' + str(e)[:80])
+    rec['stats'] = sorted(stats)
+    out[name] = rec
+print('PROBE-JSON ' + json.dumps(out))
+"""
+
+
+def _probe(repo, which):
+    env = dict(os.environ)
+    env['PYTHONPATH'] = repo
+    env['PYTHONDONTWRITEBYTECODE'] = '1'
+    p = subprocess.run([sys.executable, '-c', _PROBE, which, json.dumps(GRID)], env=env,
+                       stdout=subprocess.PIPE, stderr=subprocess.PIPE, text=True, timeout=600)
+    for line in p.stdout.split('\n'):
+        if line.startswith('PROBE-JSON '):
+            return json.loads(line[len('PROBE-JSON '):])
+    raise ExtractionError('live probe of the {} table failed: rc={} {}'.format(
+        which, p.returncode, p.stderr[-400:]))
+
+
+def _live_table(repo, which):
+    """Source 3 (see the module docstring). Returns (table, record for the evidence)."""
+    data = _probe(repo, which)
+    table = {}
+    record = {'grid': GRID, 'points_per_name': {}, 'no_derivative': [], 'linear_self': []}
+    for name, rec in sorted(data.items()):
+        stats = rec.get('stats', [])
+        if rec['status'] == 'unavailable':
+            continue
+        bad = [x for x in stats if x.startswith('error')]
+        if bad:
+            raise ExtractionError('live {} table: ufunc {}: {}'.format(which, name, bad[0]))
+        if stats == ['none'] or stats == []:
+            if name in FNS and stats == []:
+                raise ExtractionError('live {} table: ufunc {} could not be evaluated on the grid'.format(which, name))
+            record['no_derivative'].append(name)
+            continue
+        if stats == ['self']:
+            if not rec.get('linear'):
+                raise ExtractionError('live {} table: {} returns self without being flagged linear'.format(which, name))
+            record['linear_self'].append(name)
+            continue
+        if stats != ['mult']:
+            raise ExtractionError('live {} table: ufunc {} behaves inconsistently on the grid: {}'.format(
+                which, name, stats))
+        if rec['status'] == 'other-range':
+            raise ExtractionError('live {} table: {} has a derivative but range != domain'.format(which, name))
+        pts = rec['pts']
+        if len(pts) < 4:
+            raise ExtractionError('live {} table: too few grid points for {}'.format(which, name))
+        matches = []
+        for label, fn, absolute in CANDIDATES:
+            ok = True
+            for t, m in pts:
+                try:
+                    c = fn(t)
+                except (ValueError, ZeroDivisionError, OverflowError):
+                    ok = False
+                    break
+                if not abs(c - m) <= 1e-12 * max(abs(c), abs(m)):
+                    ok = False
+                    break
+            if ok:
+                matches.append((label, absolute))
+        if len(matches) != 1:
+            raise ExtractionError('live {} table: multiplier of {} matches {} candidates ({}) on the grid; '
+                                  'values {}'.format(which, name, len(matches), [l for l, _ in matches], pts[:3]))
+        if name not in FNS:
+            raise ExtractionError('live {} table: ufunc {!r} has a derivative ({}) but no Lean counterpart'.format(
+                which, name, matches[0][0]))
+        label, absolute = matches[0]
+        home = HOME[which][name]
+        table[name] = home[1] if home[0] == label else absolute
+        record['points_per_name'][name] = len(pts)
+    return [(n, table[n]) for n in FNS if n in table], record
+
+
+SOURCES = {}
+
+
+def _canon(table, what):
+    names = [n for n, _ in table]
+    if len(set(names)) != len(names):
+        raise ExtractionError('{}: duplicate ufunc names {}'.format(what, names))
+    d = dict(table)
+    return [(n, d[n]) for n in FNS if n in d]
+
+
 def extract(repo=core.REPO):
     path = os.path.join(repo, 'odl', 'ufunc_ops', 'ufunc_ops.py')
     with open(path) as f:
         tree = ast.parse(f.read())
-    table = _chain(tree, 'derivative_factory', _inner, ['derivative = Operator.derivative'])
-    gtable = _chain(tree, 'gradient_factory', _inner_grad,
-                    ['gradient = Functional.gradient.fget', 'gradient = Functional.gradient'])
+    SOURCES.clear()
+    errors = []
+    table = None
+    for label, fn in (('ast-chain', lambda: _chain(tree, 'derivative_factory', _inner,
+                                                   ['derivative = Operator.derivative'])),
+                      ('ast-table', lambda: _table_form(tree))):
+        try:
+            table = _canon(fn(), 'derivative table')
+            SOURCES['derivative_table'] = {'source': label}
+            break
+        except ExtractionError as e:
+            errors.append('{}: {}'.format(label, e))
+    if table is None:
+        table, rec = _live_table(repo, 'deriv')     # raises ExtractionError = fail closed
+        rec.update({'source': 'live', 'ast_sources_declined': errors})
+        SOURCES['derivative_table'] = rec
+    errors = []
+    gtable = None
+    try:
+        gtable = _canon(_chain(tree, 'gradient_factory', _inner_grad,
+                               ['gradient = Functional.gradient.fget', 'gradient = Functional.gradient']),
+                        'gradient table')
+        SOURCES['gradient_table'] = {'source': 'ast-chain'}
+    except ExtractionError as e:
+        errors.append('ast-chain: {}'.format(e))
+        gtable, rec = _live_table(repo, 'grad')
+        rec.update({'source': 'live', 'ast_sources_declined': errors})
+        SOURCES['gradient_table'] = rec
     lin = [n for n in tree.body if isinstance(n, ast.Assign) and _u(n.targets[0]) == 'LINEAR_UFUNCS']
     if len(lin) != 1:
         raise ExtractionError('LINEAR_UFUNCS not found')
